@@ -53,7 +53,7 @@ func parseFrameClause(kind, pkg string, props []string, rest string) (*FrameClau
 		}
 		return fc, nil
 	}
-	if kind == "dominated" {
+	if kind == "dominated" || kind == "sequence" {
 		j := strings.Index(rest, ":")
 		if j < 0 {
 			return nil, fmt.Errorf("bad dominated clause %q", rest)
@@ -203,6 +203,8 @@ func frameObligation(ld *Loader, fc *FrameClause) *Obl {
 		return globalInitObligation(ld, fc)
 	case "dominated":
 		return dominatedObligation(ld, fc)
+	case "sequence":
+		return sequenceObligation(ld, fc)
 	}
 	vc := newVC("frame:" + fc.Target)
 	var found []string
@@ -381,6 +383,71 @@ func globalValueReadOnly(v ssa.Value) bool {
 		}
 	}
 	return true
+}
+
+// sequence[Cxx] FUNC: A B C ...   in FUNC each of the named callees is called,
+// and every call of a later one is dominated by a completed call of the one
+// before it (the earlier call is in a dominating block, or earlier in the same
+// block): on every path the calls happen in this order. Used for the start-up
+// loaders, whose contracts read state that the previous loader establishes.
+func sequenceObligation(ld *Loader, fc *FrameClause) *Obl {
+	vc := newVC("frame:" + fc.Target)
+	ok, detail := true, ""
+	fn := ld.funcs[fc.Target]
+	type site struct {
+		b   *ssa.BasicBlock
+		idx int
+	}
+	if fn == nil {
+		ok, detail = false, "no such function (contract out of date)"
+	} else if len(fc.Allowed) < 2 {
+		ok, detail = false, "sequence needs at least two callees"
+	} else {
+		sites := map[string][]site{}
+		for _, b := range fn.Blocks {
+			for k, in := range b.Instrs {
+				call, isCall := in.(ssa.CallInstruction)
+				if !isCall {
+					continue
+				}
+				lbl := calleeLabel(call.Common())
+				for _, t := range fc.Allowed {
+					if strings.HasSuffix(lbl, "."+t) || strings.HasSuffix(lbl, ")."+t) || lbl == t {
+						sites[t] = append(sites[t], site{b, k})
+					}
+				}
+			}
+		}
+		for _, t := range fc.Allowed {
+			if len(sites[t]) == 0 {
+				ok = false
+				detail += " no call of " + t + " (contract out of date);"
+			}
+		}
+		for i := 1; i < len(fc.Allowed) && ok; i++ {
+			prev, cur := fc.Allowed[i-1], fc.Allowed[i]
+			for _, c := range sites[cur] {
+				dom := false
+				for _, p := range sites[prev] {
+					if (p.b == c.b && p.idx < c.idx) || (p.b != c.b && p.b.Dominates(c.b)) {
+						dom = true
+					}
+				}
+				if !dom {
+					ok = false
+					detail += " call of " + cur + " is not preceded on every path by a call of " + prev + ";"
+				}
+			}
+		}
+	}
+	goal := "true"
+	if !ok {
+		goal = "false"
+	}
+	o := &Obl{Name: fmt.Sprintf("%s/frame(sequence) «%s: %s»#1", fc.Pkg, fc.Target, strings.Join(fc.Allowed, " ")), Kind: "frame-sequence", Func: fc.Pkg + ".frame:" + fc.Target,
+		Guard: "true", Goal: goal, Prefix: 0, vc: vc, Src: fc.Text, Props: fc.Props, FrameDetail: strings.TrimSpace(detail)}
+	vc.obls = append(vc.obls, o)
+	return o
 }
 
 func dominatedObligation(ld *Loader, fc *FrameClause) *Obl {
